@@ -657,7 +657,7 @@ pub fn universe(tier: Tier) -> Vec<MsgFamily> {
         let s2 = sp.clone();
         fams.push(MsgFamily {
             name: "u.len_sweep",
-            about: format!("{} field kinds (verbose string, verbose raw, variable name, unit, non-verbose payload, control payload, network-trace slice, string+following argument) x {} lengths ({}) x byte order; lengths above the field's maximum are clamped to it", LEN_SWEEP_KINDS, nl, sweep_lengths_about(tier)),
+            about: format!("{} field kinds (verbose string, verbose raw, variable name, unit, non-verbose payload, control payload, network-trace slice, string+following argument, string of 2-byte characters, string of 3-byte characters at an odd offset) x {} lengths ({}) x byte order; lengths above the field's maximum are clamped to it", LEN_SWEEP_KINDS, nl, sweep_lengths_about(tier)),
             size: sp.size(),
             gen: Box::new(move |i| {
                 let c = s2.coords(i);
@@ -733,6 +733,84 @@ pub fn universe(tier: Tier) -> Vec<MsgFamily> {
             }),
         });
     }
+    // F10b: network-trace slice-length tuples and argument-length tuples (heterogeneous sequences)
+    {
+        let lens: [usize; 5] = [0, 1, 2, 4, 6];
+        let mut bounds = vec![];
+        let mut total = 0u64;
+        for k in 0..=5u32 {
+            total += 5u64.pow(k);
+            bounds.push(total);
+        }
+        fams.push(MsgFamily {
+            name: "u.length_tuples",
+            about: "ALL tuples of 0..=5 lengths over {0,1,2,4,6}: as network-trace slices, and as verbose arguments alternating raw / string (string / raw in the other byte order); x byte order".into(),
+            size: total * 4,
+            gen: Box::new(move |i| {
+                let big = i % 2 == 1;
+                let as_args = (i / 2) % 2 == 1;
+                let mut j = i / 4;
+                let mut k = 0usize;
+                while j >= bounds[k] {
+                    k += 1;
+                }
+                if k > 0 {
+                    j -= bounds[k - 1];
+                }
+                let mut ls = vec![];
+                for _ in 0..k {
+                    ls.push(lens[(j % 5) as usize]);
+                    j /= 5;
+                }
+                let fl = if big { 0x02 } else { 0 };
+                if as_args {
+                    let args = ls.iter().enumerate().map(|(q, l)| if (q % 2 == 0) != big { mk_arg(RefKind::Raw, None, 0, false, RefValue::Raw((0..*l).map(|b| (b + q) as u8).collect()), None) } else { mk_arg(RefKind::Str, None, 1, false, RefValue::Str("xyzuvw"[..*l].to_string()), None) }).collect();
+                    msg_with(fl, 1, Some(ext(MSTP_LOG, 4, "A", "C")), RefPayload::Verbose(args), None)
+                } else {
+                    msg_with(fl, 1, Some(ext(MSTP_NW_TRACE, 2, "NW", "TR")), RefPayload::NetworkTrace(ls.iter().enumerate().map(|(q, l)| vec![(q * 16 + l) as u8; *l]).collect()), None)
+                }
+            }),
+        });
+    }
+    // F10c: one multi-byte character at EVERY byte offset of a long ASCII string
+    {
+        let n: usize = 8300;
+        let chars = ['é', '€', '😀'];
+        let sp = Space::new(&[n + 1, chars.len()]);
+        let s2 = sp.clone();
+        fams.push(MsgFamily {
+            name: "u.char_position_sweep",
+            about: format!("a string of {} ASCII characters with one 2-, 3- or 4-byte character inserted at EVERY byte offset 0..={} (every alignment against 4 KiB / 8 KiB blocks)", n, n),
+            size: sp.size(),
+            gen: Box::new(move |i| {
+                let c = s2.coords(i);
+                let mut t = String::with_capacity(n + 4);
+                t.push_str(&"a".repeat(c[0]));
+                t.push(chars[c[1]]);
+                t.push_str(&"b".repeat(n - c[0]));
+                msg_with(if c[0] % 2 == 1 { 0x02 } else { 0 }, 1, Some(ext(MSTP_LOG, 4, "APP", "CTX")), RefPayload::Verbose(vec![mk_arg(RefKind::Str, None, 1, false, RefValue::Str(t), None)]), None)
+            }),
+        });
+    }
+    // F10d: all ordered pairs of "special" characters as adjacent string content
+    {
+        let mut sp_chars: Vec<char> = (1u32..=31).filter_map(char::from_u32).collect();
+        sp_chars.extend([' ', '"', '&', '<', '>', '\\', '%', '{', '}', '\u{7F}', '\u{80}', '\u{85}', '\u{A0}', '\u{AD}', '\u{2028}', '\u{2029}', '\u{200B}', '\u{200D}', '\u{FEFF}', '\u{FFFD}', '\u{FFFE}', '\u{FFFF}', '\u{E000}', '\u{10FFFF}', 'a', 'Z', '0', 'é', '€', '😀', '\u{0301}', '\u{D7FF}']);
+        let n = sp_chars.len();
+        let sp = Space::new(&[n, n, 2]);
+        let s2 = sp.clone();
+        fams.push(MsgFamily {
+            name: "u.char_pairs",
+            about: format!("ALL ordered pairs over {} special characters (every ASCII control character, markup and escape characters, line / paragraph separators, zero-width and BOM / replacement / non-characters, combining mark, range ends) as adjacent string content, as the whole string and between letters; UTF8 and ASCII coding alternate", n),
+            size: sp.size(),
+            gen: Box::new(move |i| {
+                let c = s2.coords(i);
+                let pair: String = [sp_chars[c[0]], sp_chars[c[1]]].iter().collect();
+                let t = if c[2] == 0 { pair } else { format!("x{}y", pair) };
+                msg_with(if c[0] % 2 == 1 { 0x02 } else { 0 }, 1, Some(ext(MSTP_LOG, 4, "APP", "CTX")), RefPayload::Verbose(vec![mk_arg(RefKind::Str, if c[1] % 3 == 0 { Some(("n", "")) } else { None }, (c[1] % 2) as u8, false, RefValue::Str(t), None)]), None)
+            }),
+        });
+    }
     // F11: character sweep -- every Unicode scalar value as text content
     {
         let dense_positions: usize = if tier == Tier::Thorough { CHAR_POSITIONS } else { 1 };
@@ -791,7 +869,7 @@ pub fn char_message(pos: usize, c: char, last: bool, big: bool) -> RefMsg {
     }
 }
 
-pub const LEN_SWEEP_KINDS: usize = 8;
+pub const LEN_SWEEP_KINDS: usize = 10;
 pub fn sweep_lengths(tier: Tier) -> Vec<usize> {
     let mut v: Vec<usize> = match tier {
         Tier::Quick => (0..=1100).collect(),
@@ -854,6 +932,16 @@ pub fn len_sweep_message(kind: usize, l: usize, big: bool) -> RefMsg {
         4 => msg_with(fl, 1, None, RefPayload::NonVerbose(0x0102_0304, fill(l.min(65_535 - 8))), None),
         5 => msg_with(fl, 1, Some(ext(MSTP_CONTROL, 1, "APP", "CTX")), RefPayload::Control(0x11, fill(l.min(65_535 - 15))), None),
         6 => msg_with(fl, 1, Some(ext(MSTP_NW_TRACE, 2, "NW", "TR")), RefPayload::NetworkTrace(vec![fill(l.min(65_535 - 14 - 6 - 6)), vec![]]), None),
+        // strings of about l bytes made of multi-byte characters (2-byte fill; 3-byte fill behind one
+        // ASCII character, so that characters straddle every power-of-two offset)
+        8 => {
+            let n = l.min(65_535 - 14 - 7) / 2;
+            msg_with(fl, 1, e_log(), RefPayload::Verbose(vec![mk_arg(RefKind::Str, None, 1, false, RefValue::Str("é".repeat(n)), None)]), None)
+        }
+        9 => {
+            let n = (l.min(65_535 - 14 - 7 - 4).saturating_sub(1)) / 3; // 4 more bytes: name length + "n\0"
+            msg_with(fl, 1, e_log(), RefPayload::Verbose(vec![mk_arg(RefKind::Str, Some(("n", "")), 1, false, RefValue::Str(format!("a{}", "€".repeat(n))), None)]), None)
+        }
         // a string of l bytes with variable name followed by another argument (cursor carried on)
         _ => {
             let n = l.min(65_535 - 14 - 7 - 5 - 8);
@@ -900,6 +988,44 @@ pub fn value_sweep_args(tier: Tier) -> Vec<RefArg> {
             // reinterpret the same bit pattern as a signed value of that width
             let sv: i128 = if n == 16 { p as i128 } else if p >> (bits - 1) & 1 == 1 { (p as i128) - (1i128 << bits) } else { p as i128 };
             out.push(mk_arg(RefKind::Sint(n), None, 0, false, RefValue::I(sv, n), None));
+        }
+    }
+    // "generic" bit patterns: a fixed list of 1024 (4096 thorough) multiplicative-hash constants per
+    // width (no structure a boundary-value alphabet would share), as unsigned and as signed values
+    let nconst: u64 = if thorough { 4096 } else { 1024 };
+    for n in [4u8, 8, 16] {
+        let bits = 8 * n as u32;
+        for i in 1..=nconst {
+            let lo = i.wrapping_mul(0x9E37_79B9_7F4A_7C15);
+            let hi = (i ^ 0x5555).wrapping_mul(0xC2B2_AE3D_27D4_EB4F);
+            let mut p: u128 = ((hi as u128) << 64) | lo as u128;
+            if n != 16 {
+                p &= (1u128 << bits) - 1;
+            }
+            // every 4th constant gets its top bit forced (upper half of the unsigned range)
+            if i % 4 == 0 {
+                p |= 1u128 << (bits - 1);
+            }
+            out.push(mk_arg(RefKind::Uint(n), None, 0, false, RefValue::U(p, n), None));
+            let sv: i128 = if n == 16 { p as i128 } else if p >> (bits - 1) & 1 == 1 { (p as i128) - (1i128 << bits) } else { p as i128 };
+            out.push(mk_arg(RefKind::Sint(n), None, 0, false, RefValue::I(sv, n), None));
+        }
+    }
+    for i in 1..=nconst {
+        let w = i.wrapping_mul(0x9E37_79B9_7F4A_7C15);
+        out.push(mk_arg(RefKind::Float(4), None, 0, false, RefValue::F32((w >> 32) as u32), None));
+        out.push(mk_arg(RefKind::Float(8), None, 0, false, RefValue::F64(w), None));
+    }
+    // NaN space: every exponent-255 float with each single mantissa bit (signalling and quiet)
+    for b in 0..23u32 {
+        for s in [0u32, 1] {
+            out.push(mk_arg(RefKind::Float(4), None, 0, false, RefValue::F32((s << 31) | 0x7F80_0000 | (1 << b)), None));
+            out.push(mk_arg(RefKind::Float(4), None, 0, false, RefValue::F32((s << 31) | 0x7F80_0000 | (1 << b) | 1), None));
+        }
+    }
+    for b in 0..52u64 {
+        for s in [0u64, 1] {
+            out.push(mk_arg(RefKind::Float(8), None, 0, false, RefValue::F64((s << 63) | 0x7FF0_0000_0000_0000 | (1 << b)), None));
         }
     }
     // floats: exponent sweep x mantissas x sign
